@@ -1080,14 +1080,14 @@ func RaceWith[T any](sources ...Observable[T]) func(Observable[T]) Observable[T]
 				isWinner := hasWinner && winner == int32(j)
 
 				mu.Lock()
-				if !hasWinner {
-					// No winner yet, store the subscription
+				if !hasWinner || isWinner {
+					// No winner yet, or this source won while being subscribed: store the
+					// subscription, the teardown is the only one left to release it
 					subscriptions[j] = sub
-				} else if !isWinner {
+				} else {
 					// Another source won, unsubscribe this one
 					sub.Unsubscribe()
 				}
-				// If this source won, keep the subscription active
 				mu.Unlock()
 			}
 
